@@ -915,7 +915,7 @@ def c04(ctx):
 
 
 # --------------------------------------------------------------------------- schemas
-NTYPES = 44
+NTYPES = 46
 
 
 def sg_cfg(mode, shard, nshards, mutevery, wide=False):
